@@ -386,6 +386,7 @@ func osshOracle(der []byte) Sx {
 		KdfOpts             []byte
 		NumKeys             uint32
 		PubKey, Priv        []byte
+		Tag                 []byte `ssh:"rest"` // the authentication tag of an AEAD cipher
 	}
 	if err := ssh.Unmarshal(der[len(magic):], &w); err != nil {
 		return SL{I(0), S("")}
@@ -813,7 +814,7 @@ func (g *c02) rsaEverywhere(tag string, k rsaKey, full bool) {
 	if full {
 		rounds := uint32(1 + r.Intn(1<<r.Intn(31)))
 		cipher := []string{"aes256-ctr", "aes256-cbc", "aes128-gcm@openssh.com", "chacha20-poly1305@openssh.com", "3des-cbc"}[r.Intn(5)]
-		g.ossh("rsa-enc-"+tag, opensshPriv(cipher, "bcrypt", kdfOpts(r.Bytes(16), rounds), blob, r.Bytes(64+r.Intn(64))),
+		g.ossh("rsa-enc-"+tag, append(opensshPriv(cipher, "bcrypt", kdfOpts(r.Bytes(16), rounds), blob, r.Bytes(64+r.Intn(64))), r.Bytes(osshTagLen(cipher))...),
 			base([]kv{{"Type", "ssh-rsa"}, {"Cipher", cipher}, {"KDF", "bcrypt"}, {"KDF rounds", fmt.Sprint(rounds)}}, true))
 	}
 	// PuTTY: public blob e, n; private blob d, p, q, iqmp
@@ -989,7 +990,7 @@ func (g *c02) edwards() {
 	g.ossh("ed25519", opensshPriv("none", "none", nil, blob, derCat(sshU32(5), sshU32(5), sshStr([]byte("ssh-ed25519")), sshStr(pub), sshStr(append(priv, pub...)))),
 		specSx("EdDSA", nil, "Curve", "Ed25519", []kv{{"Type", "ssh-ed25519"}}, [][]byte{priv}))
 	rounds := uint32(16 + r.Intn(100))
-	g.ossh("ed25519-enc", opensshPriv("aes256-gcm@openssh.com", "bcrypt", kdfOpts(r.Bytes(16), rounds), blob, r.Bytes(160)),
+	g.ossh("ed25519-enc", append(opensshPriv("aes256-gcm@openssh.com", "bcrypt", kdfOpts(r.Bytes(16), rounds), blob, r.Bytes(160)), r.Bytes(16)...),
 		specSx("EdDSA", nil, "Curve", "Ed25519", []kv{{"Type", "ssh-ed25519"}, {"Cipher", "aes256-gcm@openssh.com"}, {"KDF", "bcrypt"}, {"KDF rounds", fmt.Sprint(rounds)}}, [][]byte{priv}))
 	pc := genComment(r, 4)
 	cmeta := kv{"Comment", pc}
@@ -1268,6 +1269,8 @@ func genC02(c *Ctx) {
 		sub := NewRng(0xC02521)
 		g.pgpEntity("corpus-ecdsa-P-521", newECKey(oidP521, 19, 1500000400, sub, nil), specEC("ECDSA", 521, "P-521"), nil, nil, sub)
 	}
+	// SSH1: encrypted keys are described from their public half whatever the cipher and the passphrase
+	g.ssh1Corpus()
 	g.valid = nil
 
 	// ---- fixtures of the repository ----
@@ -1338,6 +1341,12 @@ func genC02(c *Ctx) {
 		}
 		g.edwards()
 	}
+	g.ssh1Ciphers()
+	g.osshMeta()
+	g.ppkMetaFamily()
+	g.ppkCommentBlanks()
+	g.labelMismatch()
+	g.hostPatterns()
 	g.cryptoKeys()
 	g.certKeys()
 	g.pgpKeys()
